@@ -94,6 +94,7 @@ def check(ctx):
     _affine(rep, model)
     _binding(rep, model)
     _attrs(rep, model)
+    _liveness(rep, model)
     return rep
 
 
@@ -279,3 +280,135 @@ def _attrs(rep, model):
         else:
             rep.holds('R4', cons, 'attributes resolve')
     rep.floor('R4', 'proximal closure classes', n, 14)
+
+
+# --------------------------------------------------------------------------
+# R5: parameter liveness.  A parameter of a functional that its value
+# (`_call`) depends on must also reach its proximal -- the minimiser of
+# F + |.|^2/(2 sigma) cannot be independent of a parameter that changes F,
+# unless the parameter is an additive constant or a membership tolerance
+# (named exceptions).
+LIVENESS_EXCEPTIONS = {
+    ('ConstantFunctional', 'constant'): 'additive constant: the minimiser '
+                                        'does not depend on it',
+    ('IndicatorZero', 'constant'): 'additive constant',
+    ('IndicatorSimplex', 'sum_rtol'): 'tolerance of the membership test',
+    ('IndicatorSumConstraint', 'sum_rtol'): 'tolerance of the membership '
+                                            'test',
+    ('IndicatorBox', 'proximal'): 'not a parameter (method reference)',
+}
+
+
+def _self_reads(node, names=('self', 'functional', 'func')):
+    """Attributes of self that are read *and used*: a read whose only use is
+    the initialisation of a local variable that is never loaded afterwards
+    (dead store) does not count."""
+    loads = {}
+    for n in ast.walk(node):
+        if isinstance(n, ast.Name) and isinstance(n.ctx, ast.Load):
+            loads[n.id] = loads.get(n.id, 0) + 1
+    dead = set()
+    for n in ast.walk(node):
+        if isinstance(n, ast.Assign) and len(n.targets) == 1 and isinstance(
+                n.targets[0], ast.Name) and isinstance(
+                    n.value, ast.Attribute) and isinstance(
+                        n.value.value, ast.Name) and \
+                n.value.value.id in names and \
+                loads.get(n.targets[0].id, 0) == 0:
+            dead.add(id(n.value))
+    out = set()
+    for n in ast.walk(node):
+        if isinstance(n, ast.Attribute) and isinstance(n.value, ast.Name) \
+                and n.value.id in names and id(n) not in dead:
+            out.add(n.attr)
+    return out
+
+
+def _attr_params(model, ci):
+    """attribute (unmangled) -> set of __init__ parameters it is computed
+    from (through local variables), for the __init__ that ci uses."""
+    dc, init = model.lookup(ci, '__init__')
+    if not isinstance(init, ast.FunctionDef):
+        return {}, set()
+    params = {a.arg for a in init.args.args[1:] + init.args.kwonlyargs}
+    if init.args.kwarg:
+        params.add(init.args.kwarg.arg)
+    local = {p: {p} for p in params}
+    out = {}
+
+    def deps(expr):
+        d = set()
+        for n in ast.walk(expr):
+            if isinstance(n, ast.Name) and n.id in local:
+                d |= local[n.id]
+            if isinstance(n, ast.Attribute) and isinstance(
+                    n.value, ast.Name) and n.value.id == 'self':
+                a = n.attr.split('__')[-1] if n.attr.startswith('__') \
+                    else n.attr
+                d |= out.get(a, set())
+        return d
+    for st in ast.walk(init):
+        if isinstance(st, ast.Assign):
+            d = deps(st.value)
+            for t in st.targets:
+                if isinstance(t, ast.Name):
+                    local[t.id] = local.get(t.id, set()) | d
+                elif isinstance(t, ast.Attribute) and isinstance(
+                        t.value, ast.Name) and t.value.id == 'self':
+                    a = t.attr.split('__')[-1] if t.attr.startswith('__') \
+                        else t.attr
+                    out[a] = out.get(a, set()) | d
+    return out, params
+
+
+def _liveness(rep, model):
+    n = 0
+    for ci in sorted(model.classes.values(), key=lambda c: c.name):
+        if ci.rel != DEFF or not model.is_subclass(ci, 'Functional'):
+            continue
+        call = ci.methods.get('_call')
+        prox = ci.methods.get('proximal')
+        if call is None or prox is None:
+            continue
+        amap, params = _attr_params(model, ci)
+        if not amap:
+            continue
+        n += 1
+
+        def norm(a):
+            return a.split('__')[-1] if a.startswith('__') else a
+
+        def closure(node):
+            reads = set()
+            todo = list(_self_reads(node))
+            while todo:
+                a = norm(todo.pop())
+                if a in reads:
+                    continue
+                reads.add(a)
+                dc, m = model.lookup(ci, a)
+                if isinstance(m, ast.FunctionDef) and dc.rel == DEFF and \
+                        m is not node and a not in ('proximal', '_call'):
+                    todo.extend(_self_reads(m))
+            return reads
+
+        def to_params(attrs):
+            ps = set()
+            for a in attrs:
+                ps |= amap.get(a, set())
+            return ps - {'space', 'domain', 'range'}
+        value_params = to_params(closure(call))
+        prox_params = to_params(closure(prox))
+        missing = sorted(a for a in value_params - prox_params
+                         if (ci.name, a) not in LIVENESS_EXCEPTIONS)
+        cons = ci.name + '.proximal'
+        if missing:
+            rep.violation(
+                'R5', cons, 'the value of the functional depends on the '
+                'constructor parameter(s) %s which the proximal never '
+                'reads: the proximal cannot be the minimiser for every '
+                'value of them' % missing, DEFF, prox.lineno)
+        else:
+            rep.holds('R5', cons, 'reads every value parameter %s'
+                      % sorted(value_params))
+    rep.floor('R5', 'functionals with _call and proximal', n, 12)
